@@ -354,6 +354,29 @@ def obligations(tier):
                          'foreign messages received (symbolic), then the own message looped back',
                   claim='sent and received ids share one memory consistently: the own message is still ignored while fewer ids than the '
                         'memory holds were recorded after it'))
+    for second in (False, True):
+        for stop in (False, True):
+            for pa in ((0, 1) if second else (None,)):
+                bind = {'second': second, 'stop': stop}
+                if pa is not None:
+                    bind['pset_a'] = pa
+                name = ('two_messages' if second else 'one_message') + ('.stop_while_pending' if stop else '') + \
+                       ('' if pa is None else '.' + ('unicast', 'multicast')[pa] + '_first')
+                obs.append(Ob(f'C15.send_loop.{name}', 'harness.C15', 'send_loop_realises_schedule', bind=bind, timeout=max(tc, 150),
+                              functions=['sdc11073.wsdiscovery.networkingthread.NetworkingThread._run_send',
+                                         'sdc11073.wsdiscovery.networkingthread.NetworkingThread._repeated_enqueue_msg',
+                                         'sdc11073.wsdiscovery.networkingthread.NetworkingThread.add_outbound_message'],
+                              stubs=['NetworkingThread made with __new__ (no sockets); real PriorityQueue and Event; the outbound selector '
+                                     'always reports one writable socket; _send_msg records (MessageID, repetition, instant)',
+                                     'nt.time = virtual clock (sleep(d) advances it by exactly d and fires the scenario events due in '
+                                     'between); nt.random = the scenario\'s draws (corner / middle values of each parameter set)',
+                                     'real interpreter semantics (float clock arithmetic); the solver enumerates the selectors'],
+                              bounds='message A with unicast / multicast parameters, 3 x 3 draws' +
+                                     ('; message B (2 parameter sets, 3 x 3 draws) enqueued at 0, 1/4 .. 4/4 of A\'s schedule' if second else '') +
+                                     ('; stop scheduled at 0, 1/4 .. 4/4 of A\'s schedule (the loop drains the queue)' if stop else ''),
+                              claim='the send loop realises the schedule: every datagram leaves not before its scheduled instant and at most '
+                                    'one polling period (max of SEND_LOOP_IDLE_SLEEP, SEND_LOOP_BUSY_SLEEP) after it; 1 + repeat datagrams '
+                                    'per message, in order - also for a message enqueued while another one is waiting and while stopping'))
     return obs
 
 
